@@ -470,7 +470,8 @@ class History:
                                    "status": r.choice([None, None, "Pending", "Submitted", "Received"])}})
         qs.append({"batches_by_ids": {"ids": [r.choice([0, 1, 2, 3, nb, nb + 1, 99]) for _ in range(r.randrange(0, 6))]}})
         qs.append({"batch": {"id": r.choice([0, 1, nb, nb + 1])}})
-        qs.append({"ibc_queue": {"start_after": r.choice([None, 0] + seqs), "limit": r.choice([None, 0, 1, 2, 10])}})
+        qs.append({"ibc_queue": {"start_after": r.choice([None, 0] + seqs + [s_ - 1 for s_ in seqs] + [s_ + 1 for s_ in seqs]),
+                                 "limit": r.choice([None, 0, 1, 2, 10])}})
         qs.append({"ibc_reply_queue": {"start_after": None, "limit": r.choice([None, 1])}})
         qs.append({"unstake_requests": {"user": r.choice(self._users())}})
         qs.append({r.choice(["all_unstake_requests", "all_unstake_requests_v2"]):
@@ -503,6 +504,29 @@ class History:
                 if "ok" in fa and fa["ok"]["batches"] != want:
                     finding("status_filter", {"status": st_}, "Batches{status: %s} returns ids %s; the complete listing has %s with that status" % (
                         st_, [x["id"] for x in fa["ok"]["batches"]], [x["id"] for x in want]))
+        fullq0 = self.h.call({"op": "query", "msg": {"ibc_queue": {"start_after": None, "limit": None}}})
+        for q_ in qs:
+            # any cursor (stored key or not), any limit, any status: the page is the entries of the complete listing
+            # strictly after the cursor (matching the status), cut at the limit
+            if "batches" in q_ and "ok" in fullb:
+                p_ = q_["batches"]
+                want = [x for x in fullb["ok"]["batches"] if (p_["start_after"] is None or x["id"] > p_["start_after"])
+                        and (p_["status"] is None or x["status"] == p_["status"].lower())]
+                if p_["limit"] is not None:
+                    want = want[:p_["limit"]]
+                a_ = self.h.call({"op": "query", "msg": q_})
+                if "ok" in a_ and a_["ok"]["batches"] != want:
+                    finding("cursor_exclusive", {"q": "batches"}, "Batches %s returns ids %s; the complete listing gives %s" % (
+                        p_, [x["id"] for x in a_["ok"]["batches"]], [x["id"] for x in want]))
+            if "ibc_queue" in q_ and "ok" in fullq0:
+                p_ = q_["ibc_queue"]
+                want = [x for x in fullq0["ok"]["ibc_queue"] if p_["start_after"] is None or x["sequence"] > p_["start_after"]]
+                if p_["limit"] is not None:
+                    want = want[:p_["limit"]]
+                a_ = self.h.call({"op": "query", "msg": q_})
+                if "ok" in a_ and a_["ok"]["ibc_queue"] != want:
+                    finding("cursor_exclusive", {"q": "ibc_queue"}, "IbcQueue %s returns sequences %s; the complete listing gives %s" % (
+                        p_, [x["sequence"] for x in a_["ok"]["ibc_queue"]], [x["sequence"] for x in want]))
         allr = self.h.call({"op": "query", "msg": {"all_unstake_requests": {"start_after": None, "limit": None}}})
         if "ok" in allr:
             for u in self._users():
